@@ -122,15 +122,15 @@ Proof.
     try (destruct (existsb _ _); cbn); auto.
 Qed.
 Lemma tstep_glob_run cf t c g pr sl fr i rest ph r ok g' l' es :
-  tstep cf t c g (Loc pr (Run fr (i :: rest) ph r ok) sl) = Some (g', l', es) ->
+  tstep0 cf t c g (Loc pr (Run fr (i :: rest) ph r ok) sl) = Some (g', l', es) ->
   g' = m_g (exec_mi cf t i ph r ok g).
 Proof.
-  unfold tstep. cbn [at_ slots prog]. intros Hs.
+  unfold tstep0. cbn [at_ slots prog]. intros Hs.
   destruct (m_thrown _); [destruct fr; inversion Hs; reflexivity|].
   destruct (negb (m_done _)); [inversion Hs; reflexivity|].
   destruct (match m_rest _ with Some c' => c' | None => rest end); destruct fr; inversion Hs; reflexivity.
 Qed.
-Lemma tstep_val_nonrun cf t c g l g' l' es : tstep cf t c g l = Some (g', l', es) ->
+Lemma tstep_val_nonrun cf t c g l g' l' es : tstep0 cf t c g l = Some (g', l', es) ->
   (forall fr code ph r ok, at_ l <> Run fr code ph r ok) ->
   val g' = val g /\ incrs g' = incrs g /\ (misuse g <= misuse g')%nat.
 Proof.
@@ -145,7 +145,7 @@ Proof.
 Qed.
 
 (* the value changes only in the step that closes a write window of a thread that writes *)
-Lemma tstep_val cf t c g l g' l' es : tstep cf t c g l = Some (g', l', es) ->
+Lemma tstep_val cf t c g l g' l' es : tstep0 cf t c g l = Some (g', l', es) ->
   val g' = val g \/ exists fr i rest ph r ok, at_ l = Run fr (i :: rest) (S ph) r ok /\ ro_mi i = false.
 Proof.
   intros Hs. destruct l as [pr p sl].
@@ -159,7 +159,7 @@ Proof.
 Qed.
 Lemma val_change_holder cf g ls t c l g' l' es :
   Inv1 cf g ls -> Inv2 cf g ls -> safe cf g -> nth_error ls t = Some l ->
-  tstep cf t c g l = Some (g', l', es) -> val g' <> val g -> lx cf l = 1%nat.
+  tstep0 cf t c g l = Some (g', l', es) -> val g' <> val g -> lx cf l = 1%nat.
 Proof.
   intros H1 H2 Hs Hl Hst Hv. destruct (tstep_val _ _ _ _ _ _ _ _ Hst) as [E|[fr [i [rest [ph [r [ok [Hp Hro]]]]]]]]; [congruence|].
   pose proof (I_cov _ _ _ H2 Hs t) as Hc. rewrite (locof_at _ _ _ Hl) in Hc.
@@ -200,7 +200,7 @@ Definition shape (g : glob) (t : nat) (lg : list lentry) (l : loc) : Prop :=
   | _ => True
   end.
 
-Lemma wop_code_regop cf o gsh code : wop_code cf o = Some (gsh, code) ->
+Lemma wop_code_regop cf o gsh code : plain cf = false -> wop_code cf o = Some (gsh, code) ->
   match o with
   | Load | Cast => code = [MCall FID_COPY false; MRead]
   | Store v | Assign v => code = [MCall FID_ASSIGN false; MWrite Obj (Const v)]
@@ -209,14 +209,14 @@ Lemma wop_code_regop cf o gsh code : wop_code cf o = Some (gsh, code) ->
   | _ => True
   end.
 Proof.
-  unfold wop_code. destruct o; auto; destruct (flav cf); cbn; intros H; inversion H; auto.
+  unfold wop_code. intros ->. destruct o; auto; destruct (flav cf); cbn; intros H; inversion H; auto.
 Qed.
 
 Definition newlog (t : nat) (g : glob) (l : loc) (lg : list lentry) : list lentry :=
   match lin_of t g l with Some e => e :: lg | None => lg end.
 
 Lemma run_next cf t c g pr sl o gid i rest ph r ok g' l' es :
-  tstep cf t c g (Loc pr (Run (FGuard o gid) (i :: rest) ph r ok) sl) = Some (g', l', es) ->
+  tstep0 cf t c g (Loc pr (Run (FGuard o gid) (i :: rest) ph r ok) sl) = Some (g', l', es) ->
   at_ l' =
   (if m_thrown (exec_mi cf t i ph r ok g) then GRel o gid 0 true
    else if negb (m_done (exec_mi cf t i ph r ok g))
@@ -226,7 +226,7 @@ Lemma run_next cf t c g pr sl o gid i rest ph r ok g' l' es :
              | x :: y => Run (FGuard o gid) (x :: y) 0 (m_r (exec_mi cf t i ph r ok g)) (m_ok (exec_mi cf t i ph r ok g))
              end).
 Proof.
-  unfold tstep. cbn [at_ slots prog]. intros Hs.
+  unfold tstep0. cbn [at_ slots prog]. intros Hs.
   destruct (m_thrown _); [inversion Hs; reflexivity|].
   destruct (negb (m_done _)); [inversion Hs; reflexivity|].
   destruct (match m_rest _ with Some c' => c' | None => rest end); inversion Hs; reflexivity.
@@ -234,24 +234,24 @@ Qed.
 
 (* the thread that steps *)
 Lemma shape_own_step cf t c g l g' l' es lg :
-  locok cf l -> shape g t lg l -> tstep cf t c g l = Some (g', l', es) -> shape g' t (newlog t g l lg) l'.
+  plain cf = false -> locok cf l -> shape g t lg l -> tstep0 cf t c g l = Some (g', l', es) -> shape g' t (newlog t g l lg) l'.
 Proof.
-  intros [Hlen Hpc] Hsh Hs. destruct l as [pr p sl]. unfold shape, newlog, lin_of in *. cbn [at_ slots] in *.
+  intros Hpl [Hlen Hpc] Hsh Hs. destruct l as [pr p sl]. unfold shape, newlog, lin_of in *. cbn [at_ slots] in *.
   destruct p.
   1-4: step_cases Hs; cbn [at_]; exact I.
   - (* the guard is taken: the body starts *)
-    step_cases Hs. cbn [at_]. pose proof (wop_code_regop _ _ _ _ Heqo0) as Hc.
+    step_cases Hs. cbn [at_]. pose proof (wop_code_regop _ _ _ _ Hpl Heqo0) as Hc.
     destruct o; auto; try (left; exact Hc); left; apply Hc.
   - (* one phase of the body *)
     destruct code as [|i rest]; [discriminate|].
     destruct fr as [o gid|a].
     2: { (* through a handle: not a register operation of the wrapper *)
-      unfold tstep in Hs. cbn [at_ slots prog] in Hs.
+      unfold tstep0 in Hs. cbn [at_ slots prog] in Hs.
       destruct (m_thrown _); [inversion Hs; exact I|].
       destruct (negb (m_done _)); [inversion Hs; exact I|].
       destruct (match m_rest _ with Some c' => c' | None => rest end); inversion Hs; exact I. }
     destruct o; try (
-      unfold tstep in Hs; cbn [at_ slots prog] in Hs;
+      unfold tstep0 in Hs; cbn [at_ slots prog] in Hs;
       destruct (m_thrown _); [inversion Hs; exact I|];
       destruct (negb (m_done _)); [inversion Hs; exact I|];
       destruct (match m_rest _ with Some c' => c' | None => rest end); inversion Hs; exact I).
@@ -264,7 +264,7 @@ Proof.
          | H : _ /\ _ |- _ => destruct H
          end.
     all: repeat match goal with H : _ :: _ = _ :: _ |- _ => inversion H; clear H; subst end.
-    all: unfold exec_mi, rd_begin, rd_end, wr_begin, wr_end, cas_branch.
+    all: unfold exec_mi, rd_begin, rd_end, wr_begin, wr_end, cas_branch; rewrite ?Hpl.
     all: try match goal with |- context [existsb ?f ?l] => destruct (existsb f l) end.
     all: try (destruct ph as [|ph]).
     all: cbn -[Z.mul Z.add]; rewrite ?Nat.eqb_refl.
@@ -296,7 +296,7 @@ Proof. unfold gmode, wop_code. destruct o; try tauto; intros _; destruct (has_xc
    while they hold the exclusive guard *)
 Lemma shape_other_step cf g ls t c l g' l' es lg u lu :
   Inv1 cf g ls -> Inv2 cf g ls -> safe cf g -> nth_error ls t = Some l ->
-  tstep cf t c g l = Some (g', l', es) -> u <> t -> nth_error ls u = Some lu ->
+  tstep0 cf t c g l = Some (g', l', es) -> u <> t -> nth_error ls u = Some lu ->
   shape g u lg lu -> shape g' u (newlog t g l lg) lu.
 Proof.
   intros H1 H2 Hs Hl Hst Hne Hu Hsh. unfold shape in *. rewrite (newlog_other _ _ _ _ _ Hne).
@@ -310,7 +310,7 @@ Proof.
   destruct o; try exact Hsh; exfalso; cbn [pcx] in Ex; rewrite gmode_xc in Ex by exact I; cbn in Ex; lia.
 Qed.
 
-Lemma tstep_mono cf t c g l g' l' es : tstep cf t c g l = Some (g', l', es) ->
+Lemma tstep_mono cf t c g l g' l' es : tstep0 cf t c g l = Some (g', l', es) ->
   (misuse g <= misuse g')%nat /\ (incrs g <= incrs g')%nat.
 Proof.
   intros Hs. destruct l as [pr p sl].
@@ -323,7 +323,7 @@ Qed.
 
 (* the log stays a legal sequential run ending in the current value *)
 Lemma legal_step cf g t c l g' l' es lg x0 :
-  shape g t lg l -> tstep cf t c g l = Some (g', l', es) -> incrs g' = 0%nat ->
+  shape g t lg l -> tstep0 cf t c g l = Some (g', l', es) -> incrs g' = 0%nat ->
   legal x0 lg (val g) -> legal x0 (newlog t g l lg) (val g').
 Proof.
   intros Hsh Hs Hi HL. destruct l as [pr p sl]. unfold newlog, lin_of, shape in *. cbn [at_] in *.
@@ -358,11 +358,15 @@ Record InvL (cf : config) (G : lglob) (ls : list loc) : Prop := {
   L_legal : safe cf (fst G) -> incrs (fst G) = 0%nat -> legal (init_val cf) (snd G) (val (fst G))
 }.
 
-Lemma InvL_step cf : forall G ls t c l G' l' es,
+Lemma tstep_instr cf t c g l : plain cf = false -> tstep cf t c g l = tstep0 cf t c g l.
+Proof. intros H. unfold tstep. rewrite H. destruct (tstep0 cf t c g l) as [[[? ?] ?]|]; reflexivity. Qed.
+
+Lemma InvL_step cf : plain cf = false -> forall G ls t c l G' l' es,
   InvL cf G ls -> nth_error ls t = Some l -> ltstep cf t c G l = Some (G', l', es) -> InvL cf G' (upd ls t l').
 Proof.
-  intros [g lg] ls t c l G' l' es [HI Hsh HL] Hl Hs. unfold ltstep in Hs. cbn [fst snd] in *.
-  destruct (tstep cf t c g l) as [[[g' l1] es1]|] eqn:Hst; [|discriminate]. inversion Hs; subst; clear Hs.
+  intros Hpl [g lg] ls t c l G' l' es [HI Hsh HL] Hl Hs. unfold ltstep in Hs. cbn [fst snd] in *.
+  rewrite (tstep_instr _ _ _ _ _ Hpl) in Hs.
+  destruct (tstep0 cf t c g l) as [[[g' l1] es1]|] eqn:Hst; [|discriminate]. inversion Hs; subst; clear Hs.
   fold (newlog t g l lg). cbn [fst snd].
   destruct (tstep_mono _ _ _ _ _ _ _ _ Hst) as [Hm Hi].
   assert (Hsafe : safe cf g' -> safe cf g) by (intros [? ?]; split; [assumption|lia]).
@@ -384,8 +388,8 @@ Proof.
     destruct (nth_error progs u); cbn in Hu; inversion Hu; subst. exact I.
   - intros _ _. constructor.
 Qed.
-Lemma RL_inv cf progs s : RL cf progs s -> InvL cf (gl s) (thr s).
-Proof. intros H. eapply reachable_inv; [apply InvL_step|apply InvL_init|exact H]. Qed.
+Lemma RL_inv cf progs s : plain cf = false -> RL cf progs s -> InvL cf (gl s) (thr s).
+Proof. intros Hpl H. eapply reachable_inv; [apply (InvL_step cf Hpl)|apply InvL_init|exact H]. Qed.
 
 Lemma legal_fun x0 lg : forall x y, legal x0 lg x -> legal x0 lg y -> x = y.
 Proof.
@@ -398,18 +402,18 @@ Qed.
    ends in the current payload value (the value of the last completed write: the payload is updated in the very
    step that logs the write).  Hypotheses: locking enabled / no use of moved-from handles (safe) and no
    completed read-increment-write (modify / incr through a handle are not register operations). *)
-Lemma reg_linearizable_l cf progs s : RL cf progs s -> safe cf (fst (gl s)) -> incrs (fst (gl s)) = 0%nat ->
+Lemma reg_linearizable_l cf progs s : plain cf = false -> RL cf progs s -> safe cf (fst (gl s)) -> incrs (fst (gl s)) = 0%nat ->
   legal (init_val cf) (llog s) (val (fst (gl s))).
-Proof. intros HR. apply (L_legal _ _ _ (RL_inv _ _ _ HR)). Qed.
+Proof. intros Hpl HR. apply (L_legal _ _ _ (RL_inv _ _ _ Hpl HR)). Qed.
 
 (* the logging step applies reg_apply to the payload value current at that step: exchange records the value it
    replaced, compare_exchange succeeds exactly when current = expected and otherwise reports current *)
 Lemma reg_seq_refines_l cf progs s t c l g' l' es e :
-  RL cf progs s -> safe cf (fst (gl s)) -> nth_error (thr s) t = Some l ->
+  plain cf = false -> RL cf progs s -> safe cf (fst (gl s)) -> nth_error (thr s) t = Some l ->
   tstep cf t c (fst (gl s)) l = Some (g', l', es) -> incrs g' = 0%nat -> lin_of t (fst (gl s)) l = Some e ->
   reg_apply (val (fst (gl s))) (le_op e) = (val g', le_ret e).
 Proof.
-  intros HR Hs Hl Hst Hi He. destruct (RL_inv _ _ _ HR) as [_ Hsh HLg].
+  intros Hpl HR Hs Hl Hst Hi He. rewrite (tstep_instr _ _ _ _ _ Hpl) in Hst. destruct (RL_inv _ _ _ Hpl HR) as [_ Hsh HLg].
   destruct (tstep_mono _ _ _ _ _ _ _ _ Hst) as [_ Hi0].
   assert (HL0 : legal (init_val cf) (snd (gl s)) (val (fst (gl s)))) by (apply HLg; [exact Hs|lia]).
   pose proof (legal_step cf _ t c l g' l' es _ _ (Hsh Hs t l Hl) Hst Hi HL0) as HL.
@@ -419,15 +423,15 @@ Qed.
 
 (* every completed register operation returns the value its own log entry records *)
 Lemma reg_returns_logged_l cf progs s t l o gid rv ro :
-  RL cf progs s -> safe cf (fst (gl s)) -> nth_error (thr s) t = Some l ->
+  plain cf = false -> RL cf progs s -> safe cf (fst (gl s)) -> nth_error (thr s) t = Some l ->
   at_ l = GRel o gid rv false -> regop_of o = Some ro ->
   (exists e, head_of t (llog s) = Some e /\ le_gid e = gid /\ le_op e = ro /\ ret_code (le_ret e) = rv) /\
   forall c, exists g' l' e0, tstep cf t c (fst (gl s)) l = Some (g', l', [e0; ret_ev rv]) /\ at_ l' = Idle.
 Proof.
-  intros HR Hs Hl Hp Hro. destruct (RL_inv _ _ _ HR) as [[H1 _] Hsh _].
+  intros Hpl HR Hs Hl Hp Hro. destruct (RL_inv _ _ _ Hpl HR) as [[H1 _] Hsh _].
   pose proof (Hsh Hs t l Hl) as S0. unfold shape in S0. rewrite Hp, Hro in S0. split; [exact S0|].
   intros c. destruct (I_ok _ _ _ H1 _ _ Hl) as [_ Hpc]. rewrite Hp in Hpc.
-  destruct l as [pr p sl]. cbn [at_] in Hp. subst p. unfold tstep. cbn [at_ slots prog].
+  destruct l as [pr p sl]. cbn [at_] in Hp. subst p. rewrite (tstep_instr _ _ _ _ _ Hpl). unfold tstep0. cbn [at_ slots prog].
   destruct (wop_code cf o) as [[gsh code]|]; [|congruence]. unfold release. eexists _, _, _. split; reflexivity.
 Qed.
 
@@ -435,15 +439,15 @@ Qed.
    after the invocation step and the acquisition of the guard, before the release / return step), it is taken
    by the logging thread, and that thread holds the mutex *)
 Lemma reg_lin_point_inside_call_l cf progs s t l e :
-  RL cf progs s -> nth_error (thr s) t = Some l -> lin_of t (fst (gl s)) l = Some e ->
+  plain cf = false -> RL cf progs s -> nth_error (thr s) t = Some l -> lin_of t (fst (gl s)) l = Some e ->
   le_t e = t /\ (exists fr code ph r ok, at_ l = Run fr code ph r ok) /\
   (safe cf (fst (gl s)) -> (1 <= lx cf l + lsh cf l)%nat).
 Proof.
-  intros HR Hl He. split; [eapply lin_of_tid; eauto|].
+  intros Hpl HR Hl He. split; [eapply lin_of_tid; eauto|].
   assert (exists fr code ph r ok, at_ l = Run fr code ph r ok) as Hrun.
   { unfold lin_of in He. destruct (at_ l); try discriminate. repeat eexists. }
   split; [exact Hrun|]. intros Hs. destruct Hrun as [fr [code [ph [r [ok Hp]]]]].
-  destruct (RL_inv _ _ _ HR) as [[_ H2] _ _].
+  destruct (RL_inv _ _ _ Hpl HR) as [[_ H2] _ _].
   pose proof (I_cov _ _ _ H2 Hs t) as Hc. rewrite (locof_at _ _ _ Hl) in Hc.
   destruct (Hc _ _ _ _ _ Hp) as [?|[? _]]; lia.
 Qed.
